@@ -227,10 +227,11 @@ def run(model, col, tier):
         rets = [unparse(r.value) for r in ast.walk(look) if isinstance(r, ast.Return)]
         col.check(rets == [f"self.{mapfield}[{look.args.args[1].arg}]"], "R12.4", f"{LOWER}::Context.LookupVariableScope",
                   "resolves a name through the one per-function map", f"returns {rets}", LOWER, look)
-        for a in ast.walk(oef):
-            pass
+        from ..sem import local_env as _le12, rtext as _rt12
+
+        oef_env = _le12(oef)
         argloop = [(it, body) for it, tgt, body, kind in iterations(oef)]
-        col.check(any("Arguments" in unparse(it) and any("FUNCTION_ARGUMENT" in unparse(b) for b in body) for it, body in argloop), "R12.4", f"{LOWER}::Context.OnEnterFunction registers parameters",
+        col.check(any("Arguments" in unparse(it) and any("FUNCTION_ARGUMENT" in _rt12(b, oef_env) for b in body) for it, body in argloop), "R12.4", f"{LOWER}::Context.OnEnterFunction registers parameters",
                   "every parameter is registered as FUNCTION_ARGUMENT", None, LOWER, oef)
     oem = lctx.own_method("OnEnterModule")
     col.check("GLOBAL" in unparse(oem) and "GetDeclarations" in unparse(oem), "R12.4", f"{LOWER}::Context.OnEnterModule registers globals",
